@@ -61,6 +61,16 @@ func genMux(seed uint64, n int, maxOps int, demux bool, emit func(interface{})) 
 			emit(sc)
 			continue
 		}
+		if s == 49 {
+			// payloads made of start codes: whatever the header and adaptation field sizes, some continuation packet begins with one
+			sc.Ops = append(sc.Ops, muxOp{Op: "add", PID: 0x100, ST: 27, DK: "none"}, muxOp{Op: "add", PID: 0x101, ST: 15, DK: "none"}, muxOp{Op: "setpcr", PID: 0x100}, muxOp{Op: "tables"})
+			for i := 0; i < 16; i++ {
+				sc.Ops = append(sc.Ops, muxOp{Op: "data", PID: 0x100 + i%2, Len: r.pick(400, 700, 1000), Hdr: []string{"pts", "ptsdts", "none", "full"}[(i/4)%4], AF: []string{"none", "rai", "raipcr", "priv10"}[(i/4)%4],
+					Fill: fmt.Sprintf("sc%d", i%4)})
+			}
+			emit(sc)
+			continue
+		}
 		if s == 37 {
 			// packets that came out of the Demuxer, written again as they are
 			sc.Ops = append(sc.Ops, muxOp{Op: "add", PID: 0x100, ST: 27, DK: "none"}, muxOp{Op: "setpcr", PID: 0x100}, muxOp{Op: "tables"})
